@@ -91,6 +91,8 @@ DOCS = {
     "slax1": '<a %s xsi:noNamespaceSchemaLocation="sl.xsd"><u>plain</u></a>' % XSI,
     "slax2": '<a %s xsi:noNamespaceSchemaLocation="sl.xsd" xmlns:xs="http://www.w3.org/2001/XMLSchema"><u xsi:type="xs:int">abc</u></a>' % XSI,
     "snohint": '<p:a xmlns:p="u1"><p:b>12</p:b></p:a>',
+    "nnohint": '<a><b id="i1">1</b><b id="i2">2</b></a>',
+    "nnohintbad": '<a><b id="i1">1</b><b id="i1">1</b><u/></a>',
 }
 XS_HEAD = '<xs:schema xmlns:xs="http://www.w3.org/2001/XMLSchema" '
 EXTS = {
@@ -112,13 +114,15 @@ EXTS = {
 }
 DOC_IDS = sorted(DOCS)
 V11_DOCS = {"v11", "v11b"}
+# documents with elements that are not declared in the schema they are validated against (trigger of F15u)
+UNDECL_DOCS = {"slax1", "slax2", "sbad1", "sbadn", "snohint", "nnohint", "nnohintbad"}
 SCHEMA_DOCS = [d for d in DOC_IDS if d.startswith("s")]
 FEATURES = [("val", 3), ("ns", 2), ("schema", 2), ("skipdtd", 2), ("loaddtd", 2), ("exitfatal", 2), ("vcfatal", 2),
             ("fullcheck", 2), ("ic", 2), ("cache", 2), ("usecache", 2), ("disallowdtd", 2), ("igncached", 2),
             ("loadschema", 2), ("multimport", 2), ("srcofs", 2), ("entrefs", 2), ("ignws", 2)]
 
 # member -> finding id, for the members listed in Classify15.exceptions
-EXC_MEMBER = {"fSkipDTDValidation": "F21", "fDoNamespaces": "F21b", "fDoSchema": "F21b", "fXMLVersion": "F15v"}
+EXC_MEMBER = {"fSchemaElemNonDeclPool": "F15u", "fElemNonDeclPool": "F15u", "fSkipDTDValidation": "F21", "fDoNamespaces": "F21b", "fDoSchema": "F21b", "fXMLVersion": "F15v"}
 
 
 def hx(s):
@@ -127,7 +131,7 @@ def hx(s):
 
 
 def preamble():
-    return ["D %s %s" % (k, hx(DOCS[k])) for k in DOC_IDS] + ["X %s %s" % (k, hx(EXTS[k])) for k in sorted(EXTS)]
+    return ["D %s %s%s" % (k, hx(DOCS[k]), " u" if k in UNDECL_DOCS else "") for k in DOC_IDS] + ["X %s %s" % (k, hx(EXTS[k])) for k in sorted(EXTS)]
 
 
 class Runner:
@@ -205,15 +209,25 @@ def gen_history(rng, api, thorough):
 
 
 POOL_OPS = ["pcache", "porphan", "pget", "rput", "rget", "rorphan"]
+POOL_OPS_MEDIATED = ["pcache", "pget", "rput", "rget", "rorphan"]
 
 
 def gen_pool_trace(rng):
+    """either the pool is also modified directly (orphanGrammar / clear by another party) and the resolver never looks
+    into it (useCachedGrammarInParse off), or the resolver uses cached grammars and all removals go through it: a direct
+    removal under a resolver that references the grammar leaves a dangling pointer in the implementation (undefined
+    behaviour; T15_cache_transparent is stated for resolver-mediated sequences for the same reason)"""
     ops = []
+    direct = rng.random() < 0.5
     for _ in range(rng.randrange(3, 25)):
         r = rng.random()
         k = rng.choice("abcd")
+        if direct and r >= 0.95:
+            r = 0.9
+        if not direct and 0.75 <= r < 0.80:
+            r = 0.86
         if r < 0.55:
-            ops.append("%s:%s" % (rng.choice(POOL_OPS), k))
+            ops.append("%s:%s" % (rng.choice(POOL_OPS if direct else POOL_OPS_MEDIATED), k))
         elif r < 0.63:
             ops.append("lock")
         elif r < 0.69:
@@ -351,6 +365,9 @@ def run(ctx):
         ("wit-F15p", "H sax IG pa:dv1:1 F:plain"), ("wit-F15p", "H sax2 WF pa:dbad1:0 F:plain"),
         ("wit-F15p", "H dom DG pa:dv2:2 F:plain"),
         ("wit-F21b", "H sax SG s:ns:0 p:plain us:IG F:nsunb"), ("wit-F21b", "H dom SG s:ns:0 p:plain us:DG F:nsunb"),
+        ("wit-F15u", "H sax IG s:ns:1 s:schema:1 s:val:1 p:slax1 F:slax2"),
+        ("wit-F15u", "H dom SG s:ns:1 s:schema:1 s:val:1 p:slax1 F:slax2"),
+        ("wit-F15c", "H sax2 DG s:cache:1 p:cref p:dext1 F:nsempty"),
         ("wit-F22", "S add:x add:y sync id:zz id:x add:q id:q id:nope count"),
     ]
     cases += wit
@@ -395,6 +412,9 @@ def run(ctx):
                 for g, d in (("s1.xsd", "sv1"), ("s1.xsd", "sbad1"), ("s2.xsd", "sv2"), ("s2.xsd", "sbad2"), ("sn.xsd", "svn"),
                              ("sn.xsd", "sbadn")):
                     cases.append(("transp-" + api, "T %s %s %s %s s %s s:ns:1 s:schema:1 s:val:1" % (api, sc, mode, g, d)))
+            # preloaded grammar, instance WITHOUT location hint vs hinted twin parsed with the grammar inline (verdicts only)
+            for g, d in (("s1.xsd", "snohint,sv1"), ("sn.xsd", "nnohint,svn"), ("sn.xsd", "nnohintbad,sbadn")):
+                cases.append(("transp-nohint-" + api, "T %s %s nh %s s %s s:ns:1 s:schema:1 s:val:1" % (api, sc, g, d)))
         for sc in ("IG", "DG"):
             for g, d in (("e1.dtd", "dext1"), ("e2.dtd", "dext2")):
                 cases.append(("transp-dtd-" + api, "T %s %s lg %s d %s s:val:1" % (api, sc, g, d)))
@@ -404,13 +424,28 @@ def run(ctx):
         cases.append(("spool", gen_spool(rng)))
 
     lines = [c[1] for c in cases]
-    rc1, impl, err1 = xh.run(lines, timeout=3000)
+    # the implementation may crash on a history (that is a finding or a violation of its own): answer that line with
+    # "crash" and go on with the rest of the batch
+    impl = []
+    crashes = 0
+    while len(impl) < len(lines):
+        rc1, part, err1 = xh.run(lines[len(impl):], timeout=3000)
+        impl += part
+        if len(impl) < len(lines):
+            req = lines[len(impl)]
+            impl.append("crash rc=%d" % rc1)
+            crashes += 1
+            if f15c_class(req) and ctx.find_known("F15c"):
+                if not any(k.startswith("F15c") for k in ctx.known_hits):
+                    ctx.known_finding("F15c", "DGXMLScanner with cacheGrammarFromParse: after a parse has cached the DTD "
+                                      "grammar, parsing a document with an external DTD subset and then another document "
+                                      "crashes in GrammarResolver::reset (DTDGrammar destroyed twice) (reproduced by `%s`)" % req)
+            else:
+                ctx.violation("harness-crash", {"what": "the library crashed while executing this history (request = the line "
+                                                        "being processed)", "rc": rc1, "stderr": err1[-2000:], "request": req})
+            if crashes > 8:
+                return
     rc2, model, err2 = xm.run(lines, timeout=3000)
-    if rc1 != 0 or len(impl) != len(lines):
-        req = lines[len(impl)] if len(impl) < len(lines) else None
-        ctx.violation("harness-crash", {"what": "implementation harness crashed or lost lines (request = the line being "
-                                                "processed)", "rc": rc1, "stderr": err1[-2000:], "request": req})
-        return
     if rc2 != 0 or len(model) != len(lines):
         ctx.violation("model-crash", {"what": "model driver crashed", "stderr": err2[-2000:]}, no_input=True)
         return
@@ -448,6 +483,8 @@ def run(ctx):
             continue
         if unexplained >= 5:
             continue
+        if v == "crash":
+            continue            # handled when it happened
         if v in ("poolchanged", "adoptchanged", "harness-exception", "bad-request"):
             ctx.violation(v, {"request": req, "impl": i[:3000], "what": {
                 "poolchanged": "the grammar enumerator of a LOCKED pool changed",
@@ -456,22 +493,30 @@ def run(ctx):
             continue
         # v == diff
         if req[0] == "T":
+            tt = req.split()
+            if tt[2] == "SG" and tt[3] == "nh" and tt[4] == "sn.xsd" and ctx.find_known("F15s"):
+                known_seen.setdefault("F15s", req)
+                continue
             ctx.violation("cache-transparency", {"request": req, "impl": i[:3000],
                                                  "what": "validating with a preloaded/cached grammar differs from parsing it inline"})
             unexplained += 1
             continue
         # attribution on the full history first (cheap): the model explains the difference by excepted members AND the
         # difference disappears when the trigger of that finding is taken out of the history; otherwise shrink
-        fid = attribute(req, m)
-        if fid and ctx.find_known(fid):
-            neutral = neutralise(req, fid)
+        req2 = req
+        done = False
+        for fid in attribute_all(req, m):
+            if not ctx.find_known(fid):
+                continue
+            neutral = neutralise(req2, fid)
             _, no, _ = xh.run([neutral])
             if no and no[0].startswith("same"):
                 known_seen.setdefault(fid, req)
-                continue
+                done = True
+                break
             req2 = neutral          # something else differs as well: go on with the neutralised history
-        else:
-            req2 = req
+        if done:
+            continue
         small = shrink(xh, req2)
         _, so, _ = xh.run([small])
         _, sm, _ = xm.run([small])
@@ -503,6 +548,12 @@ def run(ctx):
                 "declaration is parsed with XML 1.1 rules",
         "F15p": "a progressive parse abandoned without parseReset leaves its readers on the reader stack; the next parse "
                 "continues into the old document's remaining input",
+        "F15u": "the pool of undeclared (fault-in) schema element declarations (IGXMLScanner::fSchemaElemNonDeclPool, "
+                "SGXMLScanner::fElemNonDeclPool) is never cleared: an element name seen undeclared in an earlier document is "
+                "found there, which changes lax-wildcard / xsi:type validation of a later document",
+        "F15s": "SGXMLScanner does not find a preloaded NO-namespace schema grammar (loadGrammar + useCachedGrammarInParse) "
+                "for the root element of an instance without schema-location hint: ElementNotDefined, while the same grammar "
+                "given inline (noNamespaceSchemaLocation) or preloaded into IGXMLScanner validates the document",
         "F22": "XMLSynchronizedStringPool::getId(unknown string) returns the constant pool's string count (the id of "
                "another string) instead of 0",
     }
@@ -527,6 +578,18 @@ def run(ctx):
     ctx.note("correspondence: %d requests, verdicts %s, known %s, %.1fs" % (len(lines), verdicts, sorted(known_seen), time.time() - t0))
 
 
+def f15c_class(req):
+    """crash class F15c: DGXMLScanner in play, cacheGrammarFromParse switched on, a document with an external DTD parsed"""
+    t = req.split()
+    if t[0] != "H":
+        return False
+    ops = t[3:-1]
+    dg = t[2] == "DG" or "us:DG" in ops
+    ext = any(o.split(":")[0] in ("p", "px", "pn", "pa") and o.split(":")[1] in ("dext1", "dext2") for o in ops) or \
+        t[-1].split(":")[1] in ("dext1", "dext2")
+    return dg and "s:cache:1" in ops and ext
+
+
 def f22_class(req, impl, model):
     """the S trace differs from the specification only at getId() of strings unknown to both pools, in sync mode"""
     ri, rm = impl.split(), model.split()
@@ -537,6 +600,17 @@ def f22_class(req, impl, model):
         if a != b and not (op.startswith("id:") and b == "0"):
             return False
     return True
+
+
+def attribute_all(req, model_answer):
+    """all finding ids by which the model explains a differing history (only if every differing member is an exception)"""
+    if not model_answer.startswith("diff") or " " not in model_answer:
+        return []
+    members = model_answer.split(None, 1)[1].split(",")
+    ids = [EXC_MEMBER.get(m) for m in members]
+    if None in ids:
+        return []
+    return sorted(set(ids))
 
 
 def attribute(small, model_answer):
@@ -571,4 +645,6 @@ def neutralise(req, fid):
         ops = [o for o in ops if not o.startswith("us:")]
     elif fid == "F15p":
         ops = [o for o in ops if not o.startswith("pa:")]
+    elif fid == "F15u":
+        ops = [o for o in ops if doc_of(o) not in UNDECL_DOCS]
     return " ".join(head + ops + [fin])
